@@ -144,7 +144,7 @@ def build(config, tier):
         Bd = {2: 8, 3: 2, 4: 1}[n]
         headd = "let ai = sp::lat%d(%d); let a = %s;" % (NN, Bd, mctor(M, "ai"))
         body = headd + " let d = a.determinant();\n    check!(%s(d, sp::det%d(ai)), \"determinant == Laplace expansion\");" % (eqi, n)
-        obs.append(Ob("%s_lat_det" % pre, PROP, body, fn="%s::determinant" % N, kind="lemma", solver="cadical", stubs=["sse"], cls="lattice", tier="quick" if (n < 4 and t == "f32") else "thorough",
+        obs.append(Ob("%s_lat_det" % pre, PROP, body, fn="%s::determinant" % N, kind="lemma", solver="cadical", stubs=["sse"], cls="lattice", tier="quick" if t == "f32" else "thorough", pin=(n == 4 and t == "f32"),
                       desc="%s::determinant on all %dx%d integer matrices with entries in [-%d,%d] is the exact integer Laplace expansion (rank-deficient => exactly 0)" % (N, n, n, Bd, Bd)))
         # inverse: |det| a power of two => inverse * det == adj exactly
         if n < 4:
